@@ -7,7 +7,7 @@ Read, statement by statement (tokens; comments, line breaks and rustfmt's wrappi
   impl ArrayBuilder        to_marrow, to_arrow, to_record_batch, to_arrow2        → `FStep`s + the receiver
   impl Deserializer<'de>   from_marrow, from_arrow, from_record_batch, from_arrow2 → `RStep`s
   fn fields_from_field_refs                                                        → `RStep`s
-  every occurrence of `self.schema` in the three files                             → (file, function, use)
+  every occurrence of `self.schema` in the three files and internal/array_builder.rs → (file, function, use)
 
 Every statement must be one of the shapes in FINISHER_SHAPES / READER_SHAPES below (compared token by token with the
 same tokenizer); anything else — another statement, another order is kept as found, a statement more or less, a
@@ -278,7 +278,12 @@ def render(repo):
     uses = []
     for f in FILES:
         uses += self_schema_uses(f, parsed[f][0], parsed[f][1])
-    out.append("/-- every `self.schema` in the three files: (file, function, use) -/")
+    ab = os.path.join(src, "internal", "array_builder.rs")
+    if not os.path.exists(ab):
+        raise Unrecognised(f"{ab}: missing")
+    ab_toks, ab_fns = functions(ab)
+    uses += self_schema_uses("internal/array_builder.rs", ab_toks, ab_fns)
+    out.append("/-- every `self.schema` in the three files and in internal/array_builder.rs: (file, function, use) -/")
     out.append("def selfSchemaUses : List (String × String × String) := ["
                + ", ".join(f'("{a}", "{b}", "{c}")' for a, b, c in uses) + "]")
     out.append("")
